@@ -3,6 +3,7 @@ import ast
 
 from . import sql as sqlmod
 from .repo import AnalysisError, dotted
+from .interp_exec import short_name
 from .interp import (Outcome, NORMAL, Frame, CFG_ATTRS, CFG_CLASSES,
                      MAX_DEPTH)
 from .terms import NONE, TRUE, FALSE, const, is_const, strip_wrappers
@@ -68,11 +69,11 @@ class CallMixin(object):
         if k == "merge":
             # attribute of a value merged over the callee's branches
             alts = tuple((pc, self.get_attr(v, attr, state, frame, node))
-                         for (pc, v) in base[3])
+                         for (pc, v) in self.merges[base])
             vals = set(v for (_, v) in alts)
             if len(vals) == 1:
                 return vals.pop()
-            return ("merge", base[1], base[2], alts)
+            return self.new_merge(base[1] + "." + attr, base[2], alts)
         if k == "exc":
             # attributes of a caught exception instance
             return ("attr", base, attr)
@@ -140,7 +141,7 @@ class CallMixin(object):
             return base[1][key[1]]
         if is_const(key) and isinstance(key[1], int):
             inner = strip_wrappers(base)
-            if inner[0] in ("rows", "comp", "coll", "loopout") or base[0] in ("call",):
+            if inner[0] in ("rows", "comp", "coll", "loopvar") or base[0] in ("call",):
                 self.ev(state, "index", frame, node, base=base, key=key)
         return ("sub", base, key)
 
@@ -385,6 +386,17 @@ class CallMixin(object):
                 return merged
         return out
 
+    def new_merge(self, name, site, alts):
+        """value merged over the branches of a pure callee; the alternatives
+        ((pc suffix, value), ...) live in self.merges[term]"""
+        key = (name, site, alts)
+        if key in self._merge_ids:
+            return self._merge_ids[key]
+        term = ("merge", name, site, len(self._merge_ids))
+        self._merge_ids[key] = term
+        self.merges[term] = alts
+        return term
+
     PURE_KINDS = ("call", "ret", "index", "pure", "coll_add", "benign_if")
     PURE_EXT = ("os.urandom", "base64.b32encode", "json.dumps", "json.loads",
                 "log.msg", "random.choice", "random.randrange")
@@ -402,7 +414,7 @@ class CallMixin(object):
             for e in s.events[n0:]:
                 if e["k"] in self.PURE_KINDS:
                     continue
-                if e["k"] == "ext" and e["name"] in self.PURE_EXT:
+                if e["k"] == "ext" and short_name(e["name"]) in self.PURE_EXT:
                     continue
                 if e["k"] == "loop":
                     return None
@@ -417,7 +429,7 @@ class CallMixin(object):
         if len(values) == 1:
             term = values[0]
         else:
-            term = ("merge", fi.qualname, site, alts)
+            term = self.new_merge(fi.qualname, site, alts)
         self.ev(pre, "pure", frame, node, callee=fi.qualname, args=tuple(args),
                 alts=alts, alt_events=alt_events, value=term)
         return [(pre, term)]
